@@ -235,7 +235,7 @@ theorem dictionary_float_keys_not_wf :
       decide
     simp only [push]
     rw [pushScalar]
-    simp [hp, hk, indexOfName, indexOfName.go, ctx, bind, Except.bind, pure, Except.pure]
+    simp [hp, hk, scalarToString, indexOfName, indexOfName.go, ctx, bind, Except.bind, pure, Except.pure]
   · simp [finish, finishLeaf, finishValidity, B.isNullable, B.rows, bind, Except.bind, pure, Except.pure]
 
 /-- **known finding (FixedSizeBinary(0))**, well-formedness side: a nullable `FixedSizeBinary(0)` column with one
@@ -436,7 +436,8 @@ theorem floatOK : Lemmas.C03.FloatOK := Lemmas.C03.floatOK
 
 /-- non-vacuity of `ExtOK`: the default `Ext` (every external parser refuses) satisfies it -/
 example : Lemmas.C03.ExtOK {} where
-  date := by intro s v h; cases h
+  date32 := by intro s v h; cases h
+  date64 := by intro s v h; cases h
   time := by intro u s v h; cases h
   timestamp := by intro u utc s v h; cases h
   duration := by intro u s v h; cases h
